@@ -89,6 +89,28 @@ def run(prop, tier, seed, work):
         for i in range(0, len(steps), 200):
             sid = "C05-%s-%d" % (c["cid"], i)
             scen.append({"sid": sid, "prop": prop, "vals": [], "steps": steps[i:i + 200], "tags": [c["mut"]], "dkey": sid})
+    # every input over the token alphabet of spec/Decoder.tla up to a length bound (lazy-input model,
+    # TLC breadth-first); the model is also checked to refine the reference decoder on each of them
+    bounds = {"Sc": 7, "Co": 8, "St": 8, "Re": 9, "LeafUnk": 9, "LeafReq": 9} if quick else \
+             {"Sc": 10, "Co": 11, "St": 11, "Re": 12, "LeafUnk": 12, "LeafReq": 12}
+    model = {}
+    for ty, ml in bounds.items():
+        inputs, st = decoder_model(work, defs_path, ty, ml)
+        res.tlc_states += st.get("distinct", 0)
+        res.tlc_transitions += st.get("generated", 0)
+        model[ty] = {"max_len": ml, "distinct_states": st.get("distinct"), "inputs": len(inputs), "exhaustive": True,
+                     "invariants": ["Bounded", "Refines", "AllocBounded"]}
+        steps = []
+        for m in inputs:
+            key = (ty, bytes(m))
+            if key in seen:
+                continue
+            seen.add(key)
+            steps.append({"op": "decode", "ty": ty, "in": m, "dest": "fresh", "guard": True})
+        for i in range(0, len(steps), 400):
+            sid = "C05-model-%s-%d" % (ty, i)
+            scen.append({"sid": sid, "prop": prop, "vals": [], "steps": steps[i:i + 400], "tags": ["decoder-model"], "dkey": sid})
+    res.extra["decoder_model"] = model
     if not quick:
         scen.extend(random_inputs(prop, defs, types, rng, 20000))
     res.extra["inputs"] = len(seen)
@@ -96,6 +118,23 @@ def run(prop, tier, seed, work):
     suite.run_batches(res, work, batches)
     res.distinct = seen
     return suite.finish(res, RULE, ASSUME)
+
+
+def decoder_model(work, defs_path, ty, maxlen):
+    """exhaustive TLC run of spec/Decoder.tla for one destination type; returns the generated inputs"""
+    import os
+    d = work.sub("decoder")
+    cfg = ("SPECIFICATION Spec\nCONSTANT MaxLen = %d\nINVARIANT Bounded\nINVARIANT Refines\nINVARIANT AllocBounded\n"
+           "INVARIANT Emit\nCHECK_DEADLOCK FALSE\n" % maxlen)
+    out, st = vlib.tlc(d, "Decoder", cfg, env={"VERIF_DEFS": defs_path, "VERIF_TY": ty}, workers=8, timeout=2400, heap="10g")
+    if st.get("exit") != 0 or "No error has been found" not in out:
+        keep = os.path.join(vlib.VERIF, "work", "last-decoder-model-failure.txt")
+        i = out.find("Error")
+        open(keep, "w").write(out[max(0, i - 500):i + 20000])
+        raise vlib.MachineryError("Decoder.tla (%s): the layer-B decoder model does not refine the reference decoder, or TLC failed "
+                                  "(a model-level lead, not a verdict on the code); see %s" % (ty, keep))
+    inputs = [r["bytes"] for r in vlib.tlc_printed_json(out, "INPUT")]
+    return inputs, st
 
 
 def random_inputs(prop, defs, types, rng, n):
